@@ -55,6 +55,7 @@ class AnnSet:
         self.ANN = {n: Float[np.ndarray, d(n)] for n in NAMES}
         self.ANN2 = Inexact[np.ndarray, d("a b")]
         self.ANN_FAIL = Num[np.ndarray, d("q1 q2 a a")]  # binds q1, q2 tentatively, then needs a == a
+        self.SYM = Float[np.ndarray, d("q3 q3+1 2*q3")]  # symbolic axes over a name bound by the same check
         self.Q = Float64[np.ndarray, d("?k n")]
         self.PT_Q = PyTree[self.Q, "T"]
         self.PT_PLAIN = PyTree[Shaped[np.ndarray, d("m n")]]
@@ -112,6 +113,11 @@ def run_items(items, out, A, in_ctx=False):
             continue
         if k == "check":
             v = obs.verdict(np.zeros((it[2],)), A.ANN[it[1]])
+        elif k == "check-int":
+            # the same shared annotation object, another dtype (int32 is in none of the categories used): False, nothing bound
+            v = obs.verdict(np.zeros((it[2],), dtype="int32"), A.ANN[it[1]])
+        elif k == "sym":
+            v = obs.verdict(np.zeros((it[1], it[1] + 1, 2 * it[1] + it[2])), A.SYM)  # it[2] = 0: matches; 1: last axis off by one
         elif k == "check2":
             v = obs.verdict(np.zeros((it[1], it[2])), A.ANN2)
         elif k == "fail":
@@ -236,6 +242,8 @@ item_st = st.one_of(
     st.tuples(st.just("check"), st.sampled_from(NAMES), size),
     st.tuples(st.just("pytree"), st.lists(size, min_size=2, max_size=6), size, st.one_of(st.none(), st.integers(0, 5))),
     st.tuples(st.just("fail"), size, size),
+    st.tuples(st.just("check-int"), st.sampled_from(NAMES), size),
+    st.tuples(st.just("sym"), size, st.sampled_from([0, 0, 1])),
     st.tuples(st.just("check2"), size, size),
     st.tuples(st.just("pytree"), st.lists(size, min_size=2, max_size=6), size, st.none()),
     st.tuples(st.just("pytree-plain"), size, size),
@@ -251,8 +259,16 @@ block_st = st.one_of(
     st.tuples(st.just("top"), items_st),
     st.tuples(st.just("ctx-shared"), items_st),
 )
+# focused workloads: every thread hammers ONE shared annotation object with arrays of alternating dtypes (whatever an annotation
+# remembers between checks is shared between the threads)
+dtype_race_block = st.tuples(st.sampled_from(["top", "ctx"]), st.lists(st.one_of(st.tuples(st.just("check"), st.just("a"), size), st.tuples(st.just("check-int"), st.just("a"), size),
+                                                                                 st.tuples(st.just("sym"), size, st.sampled_from([0, 0, 1]))),
+                                                                       min_size=5, max_size=9))
 case_st = st.fixed_dictionaries({
-    "workloads": st.lists(st.lists(block_st, min_size=2, max_size=5), min_size=2, max_size=3),
+    "workloads": st.one_of(st.lists(st.lists(block_st, min_size=2, max_size=5), min_size=2, max_size=3),
+                           st.lists(st.lists(block_st, min_size=2, max_size=5), min_size=2, max_size=3),
+                           st.lists(st.lists(block_st, min_size=2, max_size=5), min_size=2, max_size=3),
+                           st.lists(st.lists(dtype_race_block, min_size=1, max_size=2), min_size=2, max_size=3)),
     "segments": st.lists(st.tuples(st.integers(0, 2), st.sampled_from([1, 2, 3, 5, 8, 13, 21, 40, 80])), max_size=10),
     "quantum": st.sampled_from([1, 2, 3, 5, 8, 1, 2]),
     "parent_context": st.sampled_from([False, False, True]),
